@@ -23,6 +23,13 @@ pub struct C14Case {
     pub decoys: bool,
     pub fmt: crate::codec::Fmt,
     pub claims: Vec<Value>,
+    /// signing algorithm of the issuer(s)
+    #[serde(default = "default_alg")]
+    pub alg: Alg,
+}
+
+fn default_alg() -> Alg {
+    Alg::HS256
 }
 
 struct Collected {
@@ -74,7 +81,8 @@ pub fn check(case: &C14Case, st: &mut Stats) -> Verdict {
     st.label(if case.shared_issuer { "issuer=shared_behind_mutex" } else { "issuer=one_per_thread" });
     st.label(if case.same_claims { "claims=same_every_time" } else { "claims=varying" });
     st.label(&format!("decoys={}", case.decoys));
-    let shared = Arc::new(Mutex::new(sut::new_issuer(Alg::HS256, KeyId::Primary)));
+    let shared = Arc::new(Mutex::new(sut::new_issuer(case.alg, KeyId::Primary)));
+    st.label(&format!("alg={}", case.alg.name()));
     let case = Arc::new(case.clone());
     let mut handles = vec![];
     for t in 0..case.threads {
@@ -82,10 +90,10 @@ pub fn check(case: &C14Case, st: &mut Stats) -> Verdict {
         let shared = shared.clone();
         handles.push(std::thread::spawn(move || {
             let mut col = Collected { salts: vec![], decoys: vec![], problems: vec![] };
-            let mut own = sut::new_issuer(Alg::HS256, KeyId::Primary);
+            let mut own = sut::new_issuer(case.alg, KeyId::Primary);
             for i in 0..case.per_thread {
                 let claims = if case.same_claims { &case.claims[0] } else { &case.claims[((t + i) as usize) % case.claims.len()] };
-                let spec = IssueSpec { claims: claims.clone(), strat: Strat::AllLevels, decoys: case.decoys, fmt: case.fmt, alg: Alg::HS256, holder: HolderKey::None };
+                let spec = IssueSpec { claims: claims.clone(), strat: Strat::AllLevels, decoys: case.decoys, fmt: case.fmt, alg: case.alg, holder: HolderKey::None };
                 let out = if case.shared_issuer {
                     let mut g = shared.lock().unwrap_or_else(|e| e.into_inner());
                     sut::issue_with(&mut g, &spec)
